@@ -1,10 +1,10 @@
 #!/bin/sh
-# Runs the repository's baseline suite on a scratch worktree of /repo HEAD (removed afterwards) and
-# compares with /root/.vp/BASELINE.json's stable_pass list. Prints the number of baseline tests that pass.
-wt=/tmp/suite_wt_$$
-git -C /repo worktree add -q --detach "$wt" HEAD || exit 2
+# Runs the repository's baseline suite (the command of /root/.vp/BASELINE.json) in /repo itself and compares with the
+# stable_pass list.  (A scratch worktree cannot be used for the full suite: the editable install maps the package
+# `tests.unit` to /repo/tests/unit, so collecting another checkout ends in "import file mismatch" errors; `tests/unit` alone
+# can be run in a worktree - that is what seed_confirm.sh does.)  The suite only writes ignored / untracked files in /repo.
 mkdir -p /tmp/suite_home_$$
-( cd "$wt" && HOME=/tmp/suite_home_$$ MPLBACKEND=Agg PYTHONPATH="$wt" timeout 3400 /venv/bin/python -m pytest -ra -q -p no:cacheprovider --timeout=900 --continue-on-collection-errors --junitxml=/tmp/suite_$$.xml > /tmp/suite_$$.log 2>&1 )
+( cd /repo && HOME=/tmp/suite_home_$$ MPLBACKEND=Agg timeout 3400 /venv/bin/python -m pytest -ra -q -p no:cacheprovider --timeout=900 --continue-on-collection-errors --junitxml=/tmp/suite_$$.xml > /tmp/suite_$$.log 2>&1 )
 /venv/bin/python - <<PY
 import json, xml.etree.ElementTree as ET
 base = set(json.load(open('/root/.vp/BASELINE.json'))['stable_pass'])
@@ -17,4 +17,5 @@ print("baseline tests passing: %d / %d" % (len(base & passed), len(base)))
 for m in missing: print("  MISSING", m)
 PY
 tail -2 /tmp/suite_$$.log
-git -C /repo worktree remove --force "$wt"; rm -rf /tmp/suite_home_$$ /tmp/suite_$$.xml; mv /tmp/suite_$$.log /tmp/suite_last.log
+rm -rf /tmp/suite_home_$$ /tmp/suite_$$.xml; mv /tmp/suite_$$.log /tmp/suite_last.log
+git -C /repo status --short
